@@ -5,6 +5,7 @@ interleaving semantics in `Model.lean`, are safe for every number of threads and
 OpenMP runtime and the hardware do is not a theorem (see the check's exploration part).
 -/
 import StirVerif.C18.Proofs
+import StirVerif.C18.ProofsRethread
 
 namespace StirVerif.C18
 
@@ -29,6 +30,12 @@ theorem C18_cache_returns_spec (spec : Nat → Int) (reqs : List (List Nat)) (sc
     (∀ e ∈ (Cache.run spec (Cache.init reqs) sched).store, e.2 = spec e.1) :=
   cache_returns_spec spec reqs sched
 
+/-- "up to floating-point reassociation of the per-thread partial sums … without lost or duplicated contributions":
+    whatever thread each work item is given to, the sum over the threads of the per-thread sums is the sum over the items.
+    The same pattern (per-thread accumulator indexed by `omp_get_thread_num()`, sequential reduction afterwards) is
+    `BackProjectorByBin::get_output`, the `local_log_likelihoods` of `distributable_computation`, and — exercised by the
+    check since the list-mode scenarios were added — the `local_output_image_sptrs` / `local_double_outs` of
+    `LM_distributable_computation` (distributable.txx:76-143). -/
 theorem C18_reduction_any_assignment (n : Nat) (owner : Nat → Nat) (items : List Nat) (f : Nat → Int)
     (h : ∀ i ∈ items, owner i < n) : reduceResult n owner items f = (items.map f).sum :=
   reduction_any_assignment n owner items f h
@@ -49,5 +56,85 @@ def Dcl.runNoRecheck (K : Nat) (s : Dcl) : List Nat → Dcl
 
 theorem C18_recheck_is_needed :
     (Dcl.runNoRecheck 1 (Dcl.init 2) [0, 1, 0, 0, 0, 0, 0, 0, 1, 1, 1]).builds = 2 := by decide
+
+/-! ### state that outlives a parallel pass: thread-count changes on live objects -/
+
+/-- "back projection of whole data sets, … gradient, sensitivity and Hessian products … give, for any number of threads …,
+    the result of the single-threaded computation … without lost or duplicated contributions", for an object that is used
+    again: in WHATEVER state the per-thread images of a back projector are (i.e. after any history of passes with any numbers of
+    threads and any repeated `set_up`), a pass in which every participating thread has a slot returns exactly the sum of the
+    contributions of that pass — nothing of an earlier pass, nothing of a thread that no longer runs. -/
+theorem C18_accum_pass_any_state (a : Accum) (work : List (Nat × Int)) (h : ∀ w ∈ work, w.1 < a.slots.length) :
+    ∃ a', a.pass work = some a' ∧ a'.output = (work.map (·.2)).sum :=
+  let ⟨a', e, o, _⟩ := accum_pass_sum a work h
+  ⟨a', e, o⟩
+
+/-- the same after `set_up` with `n` threads (the call that re-sizes the vector of per-thread images): any `m ≤ n` threads -/
+theorem C18_accum_after_setUp (a : Accum) (n m : Nat) (work : List (Nat × Int)) (hm : m ≤ n) (h : ∀ w ∈ work, w.1 < m) :
+    ∃ a', (a.setUp n).pass work = some a' ∧ a'.output = (work.map (·.2)).sum :=
+  C18_accum_pass_any_state (a.setUp n) work (by
+    intro w hw
+    rw [accum_setUp_length]
+    exact Nat.lt_of_lt_of_le (h w hw) hm)
+
+/-- every state reached by a history of `set_up`s and passes is covered by the two theorems above (they hold for all states) -/
+example (h : List AccOp) (a : Accum) (_ : Accum.new.run h = some a) (work : List (Nat × Int))
+    (hw : ∀ w ∈ work, w.1 < a.slots.length) : ∃ a', a.pass work = some a' ∧ a'.output = (work.map (·.2)).sum :=
+  C18_accum_pass_any_state a work hw
+
+/-- non-vacuity: set up with 3 threads, a pass by 3 threads, then a pass by 2 threads: 8 + 16 and nothing else -/
+example : (((Accum.new.setUp 3).pass [(0, 1), (1, 2), (2, 4)]).bind (·.pass [(0, 8), (1, 16)])).map (·.output) = some 24 := by
+  decide
+
+/-- more threads than slots is outside the model's defined behaviour (the C++ indexes the vector unchecked) -/
+example : (Accum.new.setUp 2).pass [(0, 1), (5, 2)] = none := by decide
+
+def Accum.passFirst (a : Accum) (m : Nat) (work : List (Nat × Int)) : Option Accum := (a.startFirst m).addAll work
+
+/-- a broken variant for comparison: zeroing only the images of the threads that can take part in the next pass is wrong as
+    soon as the number of threads goes down (3 threads, then 1: the old contributions 2 and 4 of threads 1 and 2 come back) -/
+theorem C18_partial_reset_is_wrong :
+    (((Accum.new.setUp 3).pass [(0, 1), (1, 2), (2, 4)]).bind (·.passFirst 1 [(0, 8)])).map (·.output) = some 14 := by
+  decide
+
+/-! ### scatter simulation: caches indexed by detector numbers given in order of first use -/
+
+/-- "scatter simulation give[s], for any number of threads and any interleaving of the threads, the result of the
+    single-threaded computation": the detectors are numbered in the order in which the threads meet them and the caches are
+    indexed by that number; for every order of the requests (every schedule) and every number of
+    `set_template_proj_data_info` calls in between, every request is answered with the value of the detector asked for. -/
+theorem C18_scatter_cache_any_order (spec : Nat → Nat → Int) (ops : List ScOp) :
+    ScCache.run spec ScCache.init ops =
+      ops.filterMap fun o => match o with | .get sp d => some (spec sp d) | .setTemplate => none :=
+  sc_run spec ops ScCache.init (scInv_init spec)
+
+/-- non-vacuity: two detectors met in one order, the template set again, met in the other order -/
+example : ScCache.run (fun sp d => 10 * sp + d) ScCache.init [.get 1 5, .get 1 7, .setTemplate, .get 1 7, .get 1 5] = [15, 17, 17, 15] := by
+  decide
+
+/-- a broken variant for comparison: forgetting the numbering but keeping the caches answers with the value of another
+    detector as soon as the detectors are met in another order (which only happens with more than one thread) -/
+theorem C18_scatter_cache_kept_is_wrong :
+    ScCache.runKeepCache (fun sp d => 10 * sp + d) ScCache.init [.get 1 5, .get 1 7, .setTemplate, .get 1 7, .get 1 5] = [15, 17, 15, 17] := by
+  decide
+
+/-! ### number of threads -/
+
+/-- `stir::set_num_threads(n)`, `n ≥ 1`: from then on `get_max_num_threads()` is `n` -/
+theorem C18_set_num_threads (s : NumThreads) (n d : Int) (h : 0 < n) :
+    s.set n d = some { alreadySetOnce := true, maxThreads := n } := by
+  have h0 : (n == 0) = false := by
+    simp only [beq_eq_false_iff_ne, ne_eq]
+    omega
+  simp only [NumThreads.set, h0, ompSetNumThreads]
+  simp [h]
+
+/-- `stir::set_num_threads()` after any earlier call keeps the number of threads -/
+theorem C18_set_num_threads_zero_keeps (s : NumThreads) (d : Int) (h : s.alreadySetOnce = true) : s.set 0 d = some s := by
+  simp [NumThreads.set, h]
+
+/-- the first `set_num_threads()` takes the default (`OMP_NUM_THREADS`, else 90 % of the processors, at least 2) -/
+example : (NumThreads.set ⟨false, 16⟩ 0 (getDefaultNumThreads 16 none)) = some ⟨true, 14⟩ := by decide
+example : (NumThreads.set ⟨false, 16⟩ 0 (getDefaultNumThreads 16 (some 5))) = some ⟨true, 5⟩ := by decide
 
 end StirVerif.C18
